@@ -12,7 +12,7 @@ use serde_json::{json, Value};
 use similar::algorithms::{Compact, DiffHook, NoFinishHook, Replace};
 use similar::Algorithm;
 
-pub const STACKS: [&str; 9] = [
+pub const STACKS: [&str; 12] = [
     "bare hook",
     "Replace<hook>",
     "Compact<hook>",
@@ -22,6 +22,9 @@ pub const STACKS: [&str; 9] = [
     "&mut hook",
     "Replace<NoFinishHook<hook>>",
     "Compact<Replace<hook without replace()>>",
+    "Replace<Replace<hook>>",
+    "Compact<Replace<Replace<hook>>>",
+    "captured ops replayed with apply_to_hook into Replace<hook>",
 ];
 
 /// Runs one diff through adapter stack `stack` with the innermost hook failing at call `k`.
@@ -78,10 +81,37 @@ fn run_stack(
             let r = raw_into(alg, 0, &mut h, old, 0..n, new, 0..m, None);
             (h.into_inner().into_inner().calls, r)
         }
-        _ => {
+        8 => {
             let mut h = Compact::new(Replace::new(RecNoReplace::failing(k)), old, new);
             let r = raw_into(alg, 0, &mut h, old, 0..n, new, 0..m, None);
             (h.into_inner().into_inner().calls, r)
+        }
+        // a Replace that is itself fed replace() calls: by a second Replace above it, or by ops
+        // replayed with apply_to_hook
+        9 => {
+            let mut h = Replace::new(Replace::new(Rec::failing(k)));
+            let r = raw_into(alg, 0, &mut h, old, 0..n, new, 0..m, None);
+            (h.into_inner().into_inner().calls, r)
+        }
+        10 => {
+            let mut h = Compact::new(Replace::new(Replace::new(Rec::failing(k))), old, new);
+            let r = raw_into(alg, 0, &mut h, old, 0..n, new, 0..m, None);
+            (h.into_inner().into_inner().into_inner().calls, r)
+        }
+        _ => {
+            let ops = similar::capture_diff(alg, old, 0..n, new, 0..m);
+            let mut h = Replace::new(Rec::failing(k));
+            let mut r = Ok(());
+            for op in &ops {
+                r = op.apply_to_hook(&mut h);
+                if r.is_err() {
+                    break;
+                }
+            }
+            if r.is_ok() {
+                r = h.finish();
+            }
+            (h.into_inner().calls, r)
         }
     })
     .map_err(|p| format!("{}: panic: {}", STACKS[stack], p))
